@@ -77,8 +77,22 @@ func c09Case(c *hx.Ctx, r *hx.RNG, idx int64) {
 				c.Violate("argument-modified", fmt.Sprintf("step %d %s: %s", i, d, msg), "")
 			}
 		}
-		if st.z < 0 || st.pi != nil || st.failed {
-			continue // no receiver, or its contents are undefined after an error / ErrNaN
+		if st.z < 0 {
+			continue
+		}
+		if st.pi != nil || st.failed {
+			// after an ErrNaN panic or a reported error the receiver's *value* is undefined; its attributes are not:
+			// a precision that was set and the rounding mode survive (an operation that fails must not leave the
+			// receiver rounding differently from then on)
+			pre, post := st.pre[st.z], st.post[st.z]
+			c.Count("receiver_attributes_checked_after_an_error", 1)
+			if st.modeRule != "any" && post.Mode != pre.Mode {
+				c.Violate("mode-changed", fmt.Sprintf("step %d %s failed (%s) and left the receiver's mode %d changed to %d; operands %v", i, d, st.aux, pre.Mode, post.Mode, operandStates(st)), "")
+			}
+			if st.modeRule != "any" && pre.Prec != 0 && post.Prec != pre.Prec {
+				c.Violate("precision-rule", fmt.Sprintf("step %d %s failed (%s) and left the receiver's precision %d changed to %d; operands %v", i, d, st.aux, pre.Prec, post.Prec, operandStates(st)), "")
+			}
+			continue
 		}
 		pre, post := st.pre[st.z], st.post[st.z]
 		switch {
